@@ -42,12 +42,15 @@ class Log:
 class Stub:
     """Inert stand-in for a global, an attribute of one, or a call result."""
 
-    __slots__ = ("term", "log", "uid")
+    __slots__ = ("term", "log", "uid", "live")
 
-    def __init__(self, term, log, uid=None):
+    def __init__(self, term, log, uid=None, live=None):
         object.__setattr__(self, "term", term)
         object.__setattr__(self, "log", log)
         object.__setattr__(self, "uid", uid)
+        # for call results: the argument objects themselves (a real callee may keep references
+        # to them, so a later mutation of an argument is part of the final value)
+        object.__setattr__(self, "live", live)
 
     def __call__(self, *args, **kwargs):
         log = self.log
@@ -72,7 +75,7 @@ class Stub:
         ev = ("call", callee, cargs, ckw)
         log.events.append(ev)
         log.ncalls += 1
-        return Stub(("res", ev), log, uid=len(log.events) - 1)
+        return Stub(("res", ev), log, uid=len(log.events) - 1, live=(callee, args, kwargs))
 
     def __getattr__(self, name):
         if name.startswith("__") and name.endswith("__") and name != "__setstate__":
@@ -111,10 +114,18 @@ def norm_import(module, name):
     return ("import", module, name)
 
 
-def _canon(v, ids, stack):
-    """ids is None -> structural; else dict uid->ordinal (identity-aware)."""
+def _canon(v, ids, stack, live=False):
+    """ids is None -> structural; else dict uid->ordinal (identity-aware).  live: call results are
+    rendered with their argument objects as they are *now*, not as they were at call time."""
     if isinstance(v, Stub):
         t = v.term
+        if live and v.live is not None and t[0] == "res":
+            if any(v is x for x in stack):
+                raise Cyclic()
+            callee, args, kwargs = v.live
+            sub = stack + [v]
+            t = ("res-live", callee, tuple(_canon(a, ids, sub, True) for a in args),
+                 tuple(sorted((str(k), _canon(x, ids, sub, True)) for k, x in kwargs.items())))  # fmt: skip
         if ids is not None and v.uid is not None:
             if v.uid not in ids:
                 ids[v.uid] = len(ids)
@@ -125,14 +136,14 @@ def _canon(v, ids, stack):
             raise Cyclic()
         stack = stack + [v]
     if isinstance(v, list):
-        return ("list", tuple(_canon(x, ids, stack) for x in v))
+        return ("list", tuple(_canon(x, ids, stack, live) for x in v))
     if isinstance(v, tuple):
-        return ("tuple", tuple(_canon(x, ids, stack) for x in v))
+        return ("tuple", tuple(_canon(x, ids, stack, live) for x in v))
     if isinstance(v, dict):
-        return ("dict", tuple((_canon(k, ids, stack), _canon(x, ids, stack)) for k, x in v.items()))
+        return ("dict", tuple((_canon(k, ids, stack, live), _canon(x, ids, stack, live)) for k, x in v.items()))
     if isinstance(v, (set, frozenset)):
         # order-insensitive; identity numbering inside sets is not attempted
-        return (type(v).__name__, tuple(sorted((_canon(x, None, stack) for x in v), key=repr)))
+        return (type(v).__name__, tuple(sorted((_canon(x, None, stack, live) for x in v), key=repr)))
     if isinstance(v, bool) or v is None:
         return (type(v).__name__, v)
     if isinstance(v, float):
@@ -144,6 +155,11 @@ def _canon(v, ids, stack):
     if isinstance(v, memoryview):
         return ("memoryview", bytes(v), v.readonly)
     return ("other", type(v).__name__, repr(v))
+
+
+def canon_live(v):
+    """identity-aware, with call results showing their arguments' current contents"""
+    return _canon(v, {}, [], True)
 
 
 def canon_s(v):
